@@ -1,13 +1,24 @@
 package rsl
 
 // C14 harnesses: RSL entry text and parsed form determine each other.
+//
+// Entry points (each run symbolically by gosym and natively for replay):
+//   HarnessC14RoundTripReference / Annotation / Propagation
+//   HarnessC14ParserReference / Annotation / Propagation  (structured texts)
+//   HarnessC14Header                                      (header / blank line)
 
 import (
+	"encoding/pem"
+	"strconv"
+	"strings"
+
 	"github.com/gittuf/gittuf/pkg/githash"
 
 	verif "github.com/gittuf/gittuf/internal/zzverif"
 )
 
+// zzHash returns an n-byte id whose bytes at `sym` spread positions are
+// symbolic.
 func zzHash(name string, n int, sym int) githash.Hash {
 	h := make([]byte, n)
 	for i := range h {
@@ -15,19 +26,72 @@ func zzHash(name string, n int, sym int) githash.Hash {
 	}
 	sb := verif.Bytes(name, sym)
 	for i, b := range sb {
-		h[(i*11)%n] = b
+		h[(i*11+3)%n] = b
 	}
 	return githash.Hash(h)
 }
 
-var zzRefNames = []string{"refs/heads/main", "refs/gittuf/policy", "refs/heads/a:b", "refs/tags/v1 x", "r"}
+func zzHashLen(name string) int {
+	if verif.Bool(name + ".sha256") {
+		return 32
+	}
+	return 20
+}
 
-// HarnessC14Smoke: reference entry round trip with a small symbolic number.
-func HarnessC14Smoke() {
+var zzNumbers = []uint64{0, 1, 9, 10, 99, 100, 4294967296, 9223372036854775808, 18446744073709551615}
+
+var zzNumbersQuick = []uint64{0, 1, 10, 18446744073709551615}
+
+func zzNumber(name string) uint64 {
+	if verif.Tier() != "thorough" {
+		return verif.OneOf(name+".boundary", zzNumbersQuick...)
+	}
+	if verif.Bool(name + ".small") {
+		return uint64(verif.IntRange(name+".v", 0, 11))
+	}
+	return verif.OneOf(name+".boundary", zzNumbers...)
+}
+
+// zzValidRefByte: bytes git-check-ref-format allows inside a component
+// (no ASCII control, space, DEL, and none of ~ ^ : ? * [ \).
+func zzValidRefByte(b byte) bool {
+	if b < 0x21 || b == 0x7f {
+		return false
+	}
+	switch b {
+	case '~', '^', ':', '?', '*', '[', '\\', '/', '.', '@', '{':
+		return false
+	}
+	return true
+}
+
+func zzRefName(name string) string {
+	switch verif.Choice(name+".shape", 5) {
+	case 0:
+		return "refs/heads/main"
+	case 1:
+		return "refs/gittuf/policy-staging"
+	case 2:
+		return "refs/tags/v1.0-rc+1"
+	case 3:
+		return "r"
+	default:
+		// a branch name ending in two arbitrary valid bytes
+		b := verif.Bytes(name+".tail", 2)
+		verif.Assume(zzValidRefByte(b[0]))
+		verif.Assume(zzValidRefByte(b[1]))
+		return "refs/heads/x" + string(b)
+	}
+}
+
+// ---------------------------------------------------------------------------
+// round trips
+
+func HarnessC14RoundTripReference() {
 	e := &ReferenceEntry{
-		RefName:  verif.OneOf("ref", zzRefNames...),
-		TargetID: zzHash("target", 20, 2),
-		Number:   uint64(verif.IntRange("number", 0, 12)),
+		RefName:  zzRefName("ref"),
+		TargetID: zzHash("target", zzHashLen("target"), 2),
+		Number:   zzNumber("number"),
 	}
 	text, err := e.createCommitMessage(true)
 	verif.Assert(err == nil, "serialise-ok")
@@ -47,4 +111,411 @@ func HarnessC14Smoke() {
 	verif.Assert(p.TargetID.Equal(e.TargetID), "target")
 	verif.Assert(p.Number == e.Number, "number")
 	verif.Assert(p.ID.Equal(id), "id")
+}
+
+var zzMessages = []string{
+	"",
+	"revoked: bad push",
+	"line one\r\nline two\n",
+	"-----BEGIN MESSAGE-----\nZm9v\n-----END MESSAGE-----",
+	"skip: false\nnumber: 7\nentryID: 0102030405060708090a0b0c0d0e0f1011121314",
+	" \t padded \n",
+}
+
+func zzMessage(name string) string {
+	k := verif.Choice(name+".shape", len(zzMessages)+1)
+	if k < len(zzMessages) {
+		return zzMessages[k]
+	}
+	n := verif.IntRange(name+".len", 1, verif.Bound("msgbytes", 2, 3))
+	n = verif.Concrete(n)
+	return verif.String(name+".bytes", n)
+}
+
+func HarnessC14RoundTripAnnotation() {
+	n := verif.Concrete(verif.IntRange("nids", 1, verif.Bound("nids", 2, 3)))
+	ids := make([]githash.Hash, n)
+	for i := range ids {
+		ids[i] = zzHash("entry"+strconv.Itoa(i), zzHashLen("entry"+strconv.Itoa(i)), 1)
+	}
+	a := &AnnotationEntry{
+		RSLEntryIDs: ids,
+		Skip:        verif.Bool("skip"),
+		Message:     zzMessage("msg"),
+		Number:      zzNumber("number"),
+	}
+	text, err := a.createCommitMessage(true)
+	verif.Assert(err == nil, "serialise-ok")
+	if err != nil {
+		return
+	}
+	id := zzHash("id", 20, 0)
+	parsed, err := parseRSLEntryText(id, text)
+	verif.Assert(err == nil, "parse-ok")
+	if err != nil {
+		return
+	}
+	p, ok := parsed.(*AnnotationEntry)
+	verif.Assert(ok, "kind")
+	if !ok {
+		return
+	}
+	verif.Reach("parsed")
+	verif.Assert(len(p.RSLEntryIDs) == len(ids), "nids")
+	if len(p.RSLEntryIDs) == len(ids) {
+		for i := range ids {
+			verif.Assert(p.RSLEntryIDs[i].Equal(ids[i]), "entryid")
+		}
+	}
+	verif.Assert(p.Skip == a.Skip, "skip")
+	verif.Assert(p.Message == a.Message, "message")
+	verif.Assert(p.Number == a.Number, "number")
+}
+
+var zzUpstreams = []string{
+	"https://example.com/org/repo",
+	"git@example.com:org/repo.git",
+	"ssh://host:2222/a:b",
+	"/local/path",
+	"u",
+}
+
+func HarnessC14RoundTripPropagation() {
+	e := &PropagationEntry{
+		RefName:            zzRefName("ref"),
+		TargetID:           zzHash("target", zzHashLen("target"), 1),
+		UpstreamRepository: verif.OneOf("upstream", zzUpstreams...),
+		UpstreamEntryID:    zzHash("upentry", zzHashLen("upentry"), 1),
+		Number:             zzNumber("number"),
+	}
+	text, err := e.createCommitMessage(true)
+	verif.Assert(err == nil, "serialise-ok")
+	id := zzHash("id", 20, 0)
+	parsed, err := parseRSLEntryText(id, text)
+	verif.Assert(err == nil, "parse-ok")
+	if err != nil {
+		return
+	}
+	p, ok := parsed.(*PropagationEntry)
+	verif.Assert(ok, "kind")
+	if !ok {
+		return
+	}
+	verif.Reach("parsed")
+	verif.Assert(p.RefName == e.RefName, "refname")
+	verif.Assert(p.TargetID.Equal(e.TargetID), "target")
+	verif.Assert(p.UpstreamRepository == e.UpstreamRepository, "upstream")
+	verif.Assert(p.UpstreamEntryID.Equal(e.UpstreamEntryID), "upentry")
+	verif.Assert(p.Number == e.Number, "number")
+}
+
+// ---------------------------------------------------------------------------
+// parser soundness on structured texts
+
+const (
+	zzKindRef = iota
+	zzKindAnn
+	zzKindProp
+)
+
+// zzSpec is the reference result of parsing.
+type zzSpec struct {
+	ok       bool
+	ref      string
+	target   string // hex
+	ids      []string
+	skip     bool
+	message  string
+	upstream string
+	upentry  string
+	number   uint64
+}
+
+func zzSpecHash(v string) bool {
+	if len(v) != 40 && len(v) != 64 {
+		return false
+	}
+	for i := 0; i < len(v); i++ {
+		c := v[i]
+		if !(c >= '0' && c <= '9' || c >= 'a' && c <= 'f' || c >= 'A' && c <= 'F') {
+			return false
+		}
+	}
+	return true
+}
+
+func zzSpecNumber(v string) (uint64, bool) {
+	n, err := strconv.ParseUint(v, 10, 64)
+	return n, err == nil
+}
+
+// zzSpecParse is the reference definition of the entry grammar: header line,
+// blank line, then "key: value" lines whose known keys must appear in the
+// fixed order of the entry kind, each at most once (entryID: one or more),
+// number optional and last; unknown keys are ignored; a line without ':' is
+// an error; for annotations everything from the message begin marker on is
+// the PEM block.
+func zzSpecParse(kind int, text string) zzSpec {
+	var res zzSpec
+	header := [...]string{ReferenceEntryHeader, AnnotationEntryHeader, PropagationEntryHeader}[kind]
+	lines := strings.Split(text, "\n")
+	if len(lines) < 2 || lines[0] != header || strings.TrimSpace(lines[1]) != "" {
+		return res
+	}
+	var order []string
+	switch kind {
+	case zzKindRef:
+		order = []string{RefKey, TargetIDKey, NumberKey}
+	case zzKindAnn:
+		order = []string{EntryIDKey, SkipKey, NumberKey}
+	default:
+		order = []string{RefKey, TargetIDKey, UpstreamRepositoryKey, UpstreamEntryIDKey, NumberKey}
+	}
+	pos := 0 // index in order of the next expected key
+	for _, line := range lines[2:] {
+		line = strings.TrimSpace(line)
+		if kind == zzKindAnn && line == BeginMessage {
+			break
+		}
+		key, value, found := strings.Cut(line, ":")
+		if !found {
+			return res
+		}
+		key, value = strings.TrimSpace(key), strings.TrimSpace(value)
+		at := -1
+		for i, k := range order {
+			if k == key {
+				at = i
+			}
+		}
+		if at < 0 {
+			continue // unknown key
+		}
+		switch {
+		case kind == zzKindAnn && key == EntryIDKey:
+			if pos != 0 {
+				return res // entryIDs only before skip
+			}
+		case kind == zzKindAnn && key == SkipKey:
+			if pos != 0 || len(res.ids) == 0 {
+				return res
+			}
+			pos = 2
+		default:
+			if at != pos {
+				return res // out of order, repeated, or a mandatory key skipped
+			}
+			pos = at + 1
+		}
+		switch key {
+		case RefKey:
+			res.ref = value
+		case TargetIDKey:
+			if !zzSpecHash(value) {
+				return res
+			}
+			res.target = strings.ToLower(value)
+		case EntryIDKey:
+			if !zzSpecHash(value) {
+				return res
+			}
+			res.ids = append(res.ids, strings.ToLower(value))
+		case SkipKey:
+			switch value {
+			case "true":
+				res.skip = true
+			case "false":
+				res.skip = false
+			default:
+				return res
+			}
+		case UpstreamRepositoryKey:
+			res.upstream = value
+		case UpstreamEntryIDKey:
+			if !zzSpecHash(value) {
+				return res
+			}
+			res.upentry = strings.ToLower(value)
+		case NumberKey:
+			n, ok := zzSpecNumber(value)
+			if !ok {
+				return res
+			}
+			res.number = n
+		}
+	}
+	// all mandatory keys seen?
+	mandatory := len(order) - 1
+	if pos < mandatory {
+		return res
+	}
+	if kind == zzKindAnn && strings.Contains(text, BeginMessage) {
+		if blk, _ := pem.Decode([]byte(text)); blk != nil {
+			res.message = string(blk.Bytes)
+		}
+	}
+	res.ok = true
+	return res
+}
+
+// zzLine builds body line number i from a menu; values may carry symbolic
+// bytes so that hash/number validation and trimming are decided by the solver.
+func zzLine(kind int, i int) string {
+	p := "l" + strconv.Itoa(i)
+	switch verif.Choice(p+".what", 12) {
+	case 0:
+		return RefKey + ": " + verif.OneOf(p+".ref", "refs/heads/main", "refs/gittuf/policy", "a:b")
+	case 1:
+		// 40 hex chars, one of them arbitrary
+		h := []byte("0102030405060708090a0b0c0d0e0f1011121314")
+		h[verif.OneOf(p+".hpos", 0, 17, 39)] = verif.Uint8(p + ".hbyte")
+		return TargetIDKey + ": " + string(h)
+	case 2:
+		return NumberKey + ": " + verif.String(p+".num", verif.Concrete(verif.IntRange(p+".numlen", 1, 2)))
+	case 3:
+		h := []byte("1112131415161718191a1b1c1d1e1f2021222324")
+		h[verif.OneOf(p+".hpos", 0, 39)] = verif.Uint8(p + ".hbyte")
+		return EntryIDKey + ": " + string(h)
+	case 4:
+		return SkipKey + ": " + verif.OneOf(p+".skip", "true", "false", "True", "")
+	case 5:
+		return UpstreamRepositoryKey + ": " + verif.OneOf(p+".up", "https://example.com/r", "host:path")
+	case 6:
+		return UpstreamEntryIDKey + ": 2122232425262728292a2b2c2d2e2f3031323334"
+	case 7:
+		return "future-key: value"
+	case 8:
+		return "no colon here"
+	case 9:
+		return BeginMessage
+	case 10:
+		return ""
+	default:
+		// a known key with stray whitespace around key and value
+		return " \t" + verif.OneOf(p+".padkey", RefKey, NumberKey, SkipKey) + " :  7 "
+	}
+}
+
+func zzHex(h githash.Hash) string { return h.String() }
+
+func zzParserHarness(kind int) {
+	header := [...]string{ReferenceEntryHeader, AnnotationEntryHeader, PropagationEntryHeader}[kind]
+	n := verif.Concrete(verif.IntRange("nlines", 0, verif.Bound("lines", 3, 5)))
+	lines := []string{header, ""}
+	for i := 0; i < n; i++ {
+		lines = append(lines, zzLine(kind, i))
+	}
+	text := strings.Join(lines, "\n")
+	id := zzHash("id", 20, 0)
+
+	entry, err := parseRSLEntryText(id, text)
+	spec := zzSpecParse(kind, text)
+	verif.Assert((err == nil) == spec.ok, "accept-iff-spec")
+	if err != nil || !spec.ok {
+		verif.Reach("rejected")
+		return
+	}
+	verif.Reach("accepted")
+	var canonical string
+	switch kind {
+	case zzKindRef:
+		e, ok := entry.(*ReferenceEntry)
+		verif.Assert(ok, "kind")
+		if !ok {
+			return
+		}
+		verif.Assert(e.RefName == spec.ref, "ref=spec")
+		verif.Assert(zzHex(e.TargetID) == spec.target, "target=spec")
+		verif.Assert(e.Number == spec.number, "number=spec")
+		canonical, _ = e.createCommitMessage(true)
+		again, err2 := parseRSLEntryText(id, canonical)
+		verif.Assert(err2 == nil, "canonical-parses")
+		if err2 == nil {
+			e2 := again.(*ReferenceEntry)
+			verif.Assert(e2.RefName == e.RefName && e2.TargetID.Equal(e.TargetID) && e2.Number == e.Number, "canonical-same")
+		}
+	case zzKindAnn:
+		a, ok := entry.(*AnnotationEntry)
+		verif.Assert(ok, "kind")
+		if !ok {
+			return
+		}
+		verif.Assert(len(a.RSLEntryIDs) == len(spec.ids), "nids=spec")
+		if len(a.RSLEntryIDs) == len(spec.ids) {
+			for i := range spec.ids {
+				verif.Assert(zzHex(a.RSLEntryIDs[i]) == spec.ids[i], "entryid=spec")
+			}
+		}
+		verif.Assert(a.Skip == spec.skip, "skip=spec")
+		verif.Assert(a.Number == spec.number, "number=spec")
+		verif.Assert(a.Message == spec.message, "message=spec")
+		canonical, _ = a.createCommitMessage(true)
+		again, err2 := parseRSLEntryText(id, canonical)
+		verif.Assert(err2 == nil, "canonical-parses")
+		if err2 == nil {
+			a2 := again.(*AnnotationEntry)
+			same := a2.Skip == a.Skip && a2.Number == a.Number && a2.Message == a.Message && len(a2.RSLEntryIDs) == len(a.RSLEntryIDs)
+			if same {
+				for i := range a.RSLEntryIDs {
+					same = same && a2.RSLEntryIDs[i].Equal(a.RSLEntryIDs[i])
+				}
+			}
+			verif.Assert(same, "canonical-same")
+		}
+	default:
+		e, ok := entry.(*PropagationEntry)
+		verif.Assert(ok, "kind")
+		if !ok {
+			return
+		}
+		verif.Assert(e.RefName == spec.ref, "ref=spec")
+		verif.Assert(zzHex(e.TargetID) == spec.target, "target=spec")
+		verif.Assert(e.UpstreamRepository == spec.upstream, "upstream=spec")
+		verif.Assert(zzHex(e.UpstreamEntryID) == spec.upentry, "upentry=spec")
+		verif.Assert(e.Number == spec.number, "number=spec")
+		canonical, _ = e.createCommitMessage(true)
+		again, err2 := parseRSLEntryText(id, canonical)
+		verif.Assert(err2 == nil, "canonical-parses")
+		if err2 == nil {
+			e2 := again.(*PropagationEntry)
+			verif.Assert(e2.RefName == e.RefName && e2.TargetID.Equal(e.TargetID) && e2.UpstreamRepository == e.UpstreamRepository &&
+				e2.UpstreamEntryID.Equal(e.UpstreamEntryID) && e2.Number == e.Number, "canonical-same")
+		}
+	}
+}
+
+func HarnessC14ParserReference()   { zzParserHarness(zzKindRef) }
+func HarnessC14ParserAnnotation()  { zzParserHarness(zzKindAnn) }
+func HarnessC14ParserPropagation() { zzParserHarness(zzKindProp) }
+
+// HarnessC14Header: header line and blank line variations in front of a valid
+// body, plus short arbitrary byte strings (unstructured input).
+func HarnessC14Header() {
+	id := zzHash("id", 20, 0)
+	var text string
+	if verif.Bool("unstructured") {
+		text = verif.String("raw", verif.Concrete(verif.IntRange("rawlen", 0, verif.Bound("rawlen", 3, 4))))
+		_, err := parseRSLEntryText(id, text)
+		verif.Assert(err != nil, "short-garbage-rejected")
+		verif.Reach("garbage")
+		return
+	}
+	kind := verif.Concrete(verif.Choice("kind", 3))
+	header := [...]string{ReferenceEntryHeader, AnnotationEntryHeader, PropagationEntryHeader}[kind]
+	body := [...]string{
+		RefKey + ": refs/heads/main\n" + TargetIDKey + ": 0102030405060708090a0b0c0d0e0f1011121314",
+		EntryIDKey + ": 0102030405060708090a0b0c0d0e0f1011121314\n" + SkipKey + ": true",
+		RefKey + ": refs/heads/main\n" + TargetIDKey + ": 0102030405060708090a0b0c0d0e0f1011121314\n" + UpstreamRepositoryKey + ": u\n" + UpstreamEntryIDKey + ": 0102030405060708090a0b0c0d0e0f1011121314",
+	}[kind]
+	h := verif.OneOf("header", header, header+" ", " "+header, header+"X", strings.ToLower(header), "")
+	sep := verif.OneOf("sep", "\n\n", "\n \t\n", "\n", "\nx\n", "\r\n\r\n", "\n"+verif.String("sepbyte", 1)+"\n")
+	text = h + sep + body
+	_, err := parseRSLEntryText(id, text)
+	spec := zzSpecParse(kind, text)
+	verif.Assert((err == nil) == spec.ok, "accept-iff-spec")
+	if err == nil {
+		verif.Reach("accepted")
+	} else {
+		verif.Reach("rejected")
+	}
 }
